@@ -36,9 +36,8 @@ ASSUMPTIONS = [
     'so that names are substrings, prefixes and suffixes of each other, or one or two of the parameter names columns/data/key/grp/index/axis/self among '
     'single letters (20%), as key and as non-key columns; tables are always built through the dict form dictable({name: values}), never through keywords; '
     'never an attribute of dictable/Dict, a name starting with an underscore, or a string cell (so a pivot label cannot overwrite an x column)',
-    'pivot: the y column is never named columns or self: xyz selects rs[[y]] and dictable[[names]] goes through dictattr.__getitem__ -> type(self)(**{name: values}), '
-    'which drops a column named columns (xyz then raises KeyError) and raises TypeError on self - candidate defect, reported, kept as '
-    'replays/C11/candidate-pivot-y-named-columns.json.pending; x, z and bystander columns may carry every one of the names',
+    'pivot: x, y, z and bystander columns may carry every one of the names columns/data/key/grp/index/axis/self (F25: xyz selects rs[[y]] and d[[names]] used to '
+    'be built through **keywords, losing a column named columns and raising on self; regression input replays/C11/F25-pivot-y-named-columns.json)',
     'a column named grp is only used with groupby(..., grp=\'g\') / ungroup(\'g\') (it would collide with the default group column); a KEY column named self is '
     'not used with groupby: ungroup() passes the key cells as keyword arguments to Dict.__call__(self, **kwargs) and raises TypeError (minor candidate defect, reported)',
     'keys are a non-empty proper subset of the columns, spelled as *names or as one list of names (listby() with no keys and listby([]) are other contracts)',
@@ -68,9 +67,6 @@ _ALL_NAMES = sorted(set(_COLS + [c for f in _FAMILIES for c in f]))
 # names of parameters of dictable.__init__ / Dict.__call__ / groupby and the like: a table built as type(self)(**{name: values}) instead of
 # type(self)({name: values}) loses (or misreads) such a column. Tables are always built through the dict form here.
 _CTOR_NAMES = ['columns', 'data', 'key', 'grp', 'index', 'axis', 'self']
-
-
-_BAD_Y_NAMES = ('columns', 'self')
 
 
 def _col_names(draw, ncols):
@@ -600,13 +596,6 @@ def _pivot_case(draw, tier):
     cols = _col_names(draw, nx + 2 + extra)
     cols = list(draw(st.permutations(cols)))
     x, y, z = cols[:nx], cols[nx], cols[nx + 1]
-    if y in _BAD_Y_NAMES:
-        # candidate defect (see ASSUMPTIONS): d[[names]] loses a column named columns / raises on self, and xyz selects rs[[y]]; keep those names off the y role
-        if z not in _BAD_Y_NAMES:
-            y, z = z, y
-        else:
-            x, y = [y] + x[1:], x[0]
-        cols = x + [y, z] + cols[nx + 2:]
     agg = draw(st.sampled_from(['none', 'last', 'sum', 'len', 'tuple']))
     ykind = draw(st.sampled_from(['str', 'int', 'dt', 'float', 'mixed', 'mixed']))
     ypool = draw(st.lists(_Y_KINDS[ykind], min_size=draw(st.sampled_from([1, 2, 2])), max_size=4))
@@ -747,6 +736,10 @@ def run_pivot(spec):
     if len(cols) > len(x) + 2:
         cls.append('extra_column')
     cls.append('aggform=' + aggform)
+    if y in _CTOR_NAMES:
+        cls.append('ctor_name_y')
+        if y in ('columns', 'self'):
+            cls.append('y_named_columns_or_self')
     vals = [model_agg(zs) for zs in cells.values()]
     if any(isinstance(v, (int, float, str, tuple)) and not v for v in vals):
         cls.append('falsy_cell')            # a cell holding 0, 0.0, '' or (): present, so it must not be confused with "no row"
@@ -810,6 +803,7 @@ SUBS = [
                                  'colname_substring_of_key': 0.08, 'key_substring_of_colname': 0.08,
                                  'rows>=64': 0.004, 'labels>=20': 0.004, 'rows>=200_single_numeric_key': 0.0034, 'bigint_key': 0.03, 'inf_key': 0.02,
                                  'column_named_like_ctor_parameter': 0.08, 'ctor_name_nonkey': 0.05, 'ctor_name_key': 0.03, 'column_named_columns': 0.01, 'column_named_data': 0.01,
+                                 'ctor_name_y': 0.02, 'y_named_columns_or_self': 0.005,
                                  'falsy_cell': 0.08, 'falsy_key': 0.3, 'pivot_1x1': 0.03, 'one_label': 0.1, 'one_x_key': 0.05,
                                  'one_row': 0.02, 'aggform=list1': 0.1, 'aggform=list2': 0.1, 'x_not_in_column_order': 0.1,
                                  'y=str': 0.05, 'y=int': 0.05, 'y=float': 0.05, 'y=dt': 0.05, 'y=mixed': 0.1}),
